@@ -765,6 +765,18 @@ impl Router {
 
                             reasons[i] = UnsubAckReason::Success;
                             self.scheduler.untrack(id, filter);
+                            // Publishes of this subscription that are still unacknowledged must
+                            // not rewind a later subscription to the same filter when the session
+                            // is saved. A plain and a shared subscription to one path read the
+                            // same log: the cursors are kept while the other one remains
+                            let log_path = |f: &str| extract_group(f).map_or(f.to_owned(), |g| g.1);
+                            let path = log_path(filter);
+                            if !connection.subscriptions.iter().any(|f| log_path(f) == path) {
+                                if let Some(filter_idx) = self.datalog.filter_idx(&path) {
+                                    let outgoing = self.obufs.get_mut(id).unwrap();
+                                    outgoing.forget_cursors(filter_idx);
+                                }
+                            }
                             self.datalog.remove_waiters_for_id(id, filter);
                             // a publish earlier in this batch may already have moved the
                             // parked request of this subscription to the wake-up list
